@@ -11,6 +11,7 @@ import FaxVerif.Cpp.Check
 import FaxVerif.Gen.Render
 import FaxVerif.C03.Spec
 import FaxVerif.C04.Shapes
+import FaxVerif.Gen.GuardedFirst
 open Lean FaxVerif.Cpp FaxVerif.Linq FaxVerif.Gen
 
 def rowsJson (rows : List (List (Val Float))) : Json :=
@@ -71,13 +72,45 @@ def handleCompile (j : Json) : Except String Json := do
     ("exec", Json.arr execs.toArray), ("denote", Json.arr dens.toArray),
     ("wf", Json.bool (WellFormed P)), ("eventlocal", Json.bool (EventLocal P))])
 
+/-- {"op":"guarded","backend":b,"colls":[..],"name":col,"chain":CHAIN,"d":{"k":"int"|"dbl",…},"events":[..]}
+    -> the model's package for `ds.Select(e -> {name: d if chain.Count() == 0 else chain.First()})` as text, plus its
+       exec / denote on the events (`Gen.compileGuarded`, theorem `compileGuarded_correct`) -/
+def handleGuarded (j : Json) : Except String Json := do
+  let colls ← (← jarr j "colls").mapM fun c => do pure ((← jstr c "name"), (← jstr c "type"), (← jstr c "elem"))
+  let B := mkBackend (← jstr j "backend") colls
+  let c ← decChain (← j.getObjVal? "chain")
+  let name ← jstr j "name"
+  let dj ← j.getObjVal? "d"
+  let (d, dq) ← (do
+    let k ← jstr dj "k"
+    if k = "int" then
+      let v := (← jint dj "v").toNat
+      pure (CExpr.cast "double" (.int v), Query.int v)   -- the arm's value is converted to the conditional's type
+    else
+      let (m, e) ← decDbl dj
+      pure (CExpr.dbl (decText m e) m e, Query.dbl m e) : Except String (CExpr × Query))
+  let P := compileGuarded B nmLocal nmCol name c d
+  let evs ← (← jarr j "events").mapM decEvent
+  let cts := colls.map fun c => (c.1, c.2.1)
+  let jl (l : List String) := Json.arr (l.map Json.str).toArray
+  let execs := evs.map fun ev => resJson ((runEvent P floatNum (classInit P.classVars) ev).map (·.1))
+  let dens := evs.map fun ev => resJson (denoteRows { N := floatNum, ev := ev, collTypes := cts } (guardedQ name c dq))
+  pure (Json.mkObj [
+    ("body", jl (renderS P.body)),
+    ("class_decl", jl (P.classVars.map fun p => s!"{p.1} {p.2};")),
+    ("branches", Json.arr (P.branches.map fun p => Json.mkObj [("name", p.1), ("var", p.2)]).toArray),
+    ("tokens", Json.arr #[]),
+    ("tree", P.tree),
+    ("exec", Json.arr execs.toArray), ("denote", Json.arr dens.toArray),
+    ("wf", Json.bool (WellFormed P)), ("eventlocal", Json.bool (EventLocal P))])
+
 def handle (line : String) : String :=
   match Json.parse line with
   | .error e => (Json.mkObj [("bad", e)]).compress
   | .ok j =>
     let r : Except String Json := do
       let op ← jstr j "op"
-      if op == "run" then handleRun j else if op == "compile" then handleCompile j else throw s!"unknown op {op}"
+      if op == "run" then handleRun j else if op == "compile" then handleCompile j else if op == "guarded" then handleGuarded j else throw s!"unknown op {op}"
     match r with
     | .ok j => j.compress
     | .error e => (Json.mkObj [("bad", e)]).compress
